@@ -161,8 +161,9 @@ def eval_step(op, ins, p, entry="method"):
             return [ar.do("sum", x)]
         return [x.sum()]
     if op == "norm2":
-        n = x.norm()
-        return [round(float(n) ** 2)] if abs(float(n) ** 2 - round(float(n) ** 2)) < 1e-6 else [float(n) ** 2]
+        # the squared norm of Gaussian-integer data is an integer; undo the sqrt rounding
+        v = float(x.norm()) ** 2
+        return [round(v)] if abs(v - round(v)) <= 2e-5 * max(1.0, v) else [v]
     if op == "to_dense":
         return [x.to_dense()]
     if op == "phase_flip":
